@@ -52,27 +52,28 @@ theorem J_of_laws (N : Net L K) (R : Report L K) (h0 : R.pot N.zero = 0) (b : Br
         simp [Elem.isIdealVS, Elem.Yfin, Elem.Ival, hY, hI]
         linear_combination hl
 
-theorem complete_rows (N : Net L K) (R : Report L K) (wf : N.WF) (hR : CircuitEqs N R) :
+/-- completeness without any hypothesis on self-loops (what `Network.__post_init__` checks suffices) -/
+theorem complete_rows_all (N : Net L K) (R : Report L K) (hids : N.ids.Nodup)
+    (hzm : N.zero ∈ N.nodeLabels) (hR : CircuitEqs N R) :
     matVec N.mnaA (N.pack R.toSol) = N.mnaB := by
   rw [matVec_pack_iff]
   constructor
   · intro n hn
-    have hk := kcl_identity N R.toSol wf.ids_nodup wf.no_self_loop n hn
+    have hk := kcl_identity_all N R.toSol hids n hn
     have hn' : n ∈ N.allLabels :=
-      (mem_allLabels_iff N wf.zero_mem n).mpr ((mem_nodes_iff N n).mp hn).1
+      (mem_allLabels_iff N hzm n).mpr ((mem_nodes_iff N n).mp hn).1
     have h0 : (N.branches.map fun b => b.dir n * N.J R.toSol b).sum = 0 := by
       rw [← hR.kcl n hn']
       unfold kclResidual
       apply congrArg; apply List.map_congr_left
       intro b hb
-      rw [J_of_laws N R hR.ref_zero b (hR.volt b hb) (hR.law b hb),
-        incidence_eq_dir b n (wf.no_self_loop b hb)]
+      rw [J_of_laws N R hR.ref_zero b (hR.volt b hb) (hR.law b hb), incidence_eq_dir_all b n]
     rw [h0] at hk
     exact (sub_eq_zero.mp hk.symm)
   · intro b hb
-    have hbm : b ∈ N.vs := (vsSorted_perm N wf.ids_nodup).mem_iff.mp hb
+    have hbm : b ∈ N.vs := (vsSorted_perm N hids).mem_iff.mp hb
     obtain ⟨hbb, hvs⟩ := List.mem_filter.mp hbm
-    rw [rowVS_eq N R.toSol b hbb (wf.no_self_loop b hbb), pot_toSol N R hR.ref_zero,
+    rw [rowVS_eq_all N R.toSol b hbb, pot_toSol N R hR.ref_zero,
       pot_toSol N R hR.ref_zero]
     have hv : R.v b.id = R.pot b.n1 - R.pot b.n2 := sub_eq_zero.mp (hR.volt b hbb)
     have hl := hR.law b hbb
@@ -83,6 +84,10 @@ theorem complete_rows (N : Net L K) (R : Report L K) (wf : N.WF) (hR : CircuitEq
       simp only [Elem.lawResidual, hZ, if_true] at hl
       rw [← hv, sub_eq_zero.mp hl]; rfl
     | thevenin Y I => rw [he] at hvs; simp [Elem.isIdealVS] at hvs
+
+theorem complete_rows (N : Net L K) (R : Report L K) (wf : N.WF) (hR : CircuitEqs N R) :
+    matVec N.mnaA (N.pack R.toSol) = N.mnaB :=
+  complete_rows_all N R wf.ids_nodup wf.zero_mem hR
 
 theorem sum_map_sub' {α : Type} (l : List α) (f g : α → K) :
     (l.map fun a => f a - g a).sum = (l.map f).sum - (l.map g).sum := by
